@@ -712,7 +712,7 @@ def check(case):
     for i, op in enumerate(ops):
         if op[0] == 'reload':
             # 'starting from any model': the history continues on the model rebuilt from its own dictionary (JSON)
-            if not getattr(ref, 'controls', None):       # (rule texts are C13's business)
+            if not getattr(ref, 'controls', None):       # (control names and rule texts are C13's business)
                 try:
                     wn = wntr.network.from_dict(json.loads(json.dumps(wntr.network.to_dict(wn))))
                 except Exception as e:
